@@ -86,10 +86,11 @@ def dyadic_constraints(variables, denom=64):
 
 
 _FINDING_SEEN = set()
+_PROBED = set()
 
 
 def discharge(log: UnitLog, c: core.Ctx, name, prop, variables, concrete, *, finding=None, timeout_ms=20000,
-              robust=None, extra=(), sample=False, desc=None, ctxfree_ms=0):
+              robust=None, extra=(), sample=False, desc=None, ctxfree_ms=0, probe=None):
     """Decide one obligation on one path.
 
     prop       property instance (z3 Bool / SymBool / bool) that must follow from assumptions + path condition
@@ -145,6 +146,23 @@ def discharge(log: UnitLog, c: core.Ctx, name, prop, variables, concrete, *, fin
     how0 = 'model'
     if verdict == 'unknown':
         if gen_model is None:
+            # the solver could not decide: before reporting the obligation as inconclusive, a few concrete points of the input domain are
+            # run through the real code (a violation found this way is a replayed counterexample like any other; finding none proves nothing)
+            for k, inputs in enumerate(probe() if callable(probe) else (probe or [])):
+                key = (name.split('[')[0], k)
+                if key in _PROBED:
+                    continue
+                _PROBED.add(key)
+                try:
+                    violated, detail = concrete(inputs)
+                except Exception as e:
+                    violated, detail = False, {'replay_exception': f'{type(e).__name__}: {e}'}
+                if violated:
+                    log['cex'].append({'obligation': name, 'finding': finding, 'config': log['config'], 'reproduced': True, 'attempts': [], 'inputs': inputs,
+                                       'detail': detail, 'how': 'concrete probe of the input domain after the solver answered unknown'})
+                    if finding is None:
+                        _CEX_SEEN[0] += 1
+                    return 'sat'
             log['inconclusive'].append({'obligation': name, 'why': 'solver unknown/timeout', 'time_s': round(dt, 2)})
             return 'unknown'
         # complete query undecided, but the generalised query has a model: it is a counterexample only if it replays
